@@ -37,6 +37,22 @@ def child_env(scratch=None):
     return e
 
 
+def shard_environment(k, nshards):
+    """
+    Environment slices (DESIGN.md 2.3): cases are dealt to shards round-robin, so a shard is a slice of every case class.
+    The last shard runs with DEBUG logging (core.run_shard); the three before it run in an interpreter started with -bb,
+    with -O, and under a time zone with daylight saving.  Returns (interpreter options, extra environment, label).
+    """
+    if nshards >= 8:
+        if k == nshards - 2:
+            return ['-bb'], {}, '-bb'
+        if k == nshards - 3:
+            return ['-O'], {}, '-O'
+        if k == nshards - 4:
+            return [], {'TZ': 'EST5EDT,M3.2.0,M11.1.0'}, 'TZ=EST5EDT'
+    return [], {}, ''
+
+
 def main(argv=None):
     ap = argparse.ArgumentParser()
     ap.add_argument('prop')
@@ -61,10 +77,13 @@ def main(argv=None):
     try:
         for k in range(nshards):
             out = os.path.join(tmp, 'shard%d.json' % k)
-            cmd = [env.PYTHON, '-B', '-X', 'faulthandler', '-m', 'vmon.worker', prop_id, args.tier, str(seed),
-                   str(k), str(nshards), out, str(timeout)]
-            p = subprocess.Popen(cmd, cwd=env.VERIF_DIR, env=child_env(os.path.join(tmp, 'scratch%d' % k)),
-                                 stdout=subprocess.PIPE, stderr=subprocess.STDOUT)
+            opts, extra, label = shard_environment(k, nshards)
+            cmd = [env.PYTHON, '-B', '-X', 'faulthandler'] + opts + ['-m', 'vmon.worker', prop_id, args.tier, str(seed),
+                                                                     str(k), str(nshards), out, str(timeout)]
+            ce = child_env(os.path.join(tmp, 'scratch%d' % k))
+            ce.update(extra)
+            ce['VMON_SHARD_ENVIRONMENT'] = label
+            p = subprocess.Popen(cmd, cwd=env.VERIF_DIR, env=ce, stdout=subprocess.PIPE, stderr=subprocess.STDOUT)
             procs.append((k, p, out))
         dumps, problems, cpu_kills = [], [], []
         deadline = t0 + timeout + 30
@@ -113,6 +132,18 @@ def main(argv=None):
 
 
 def replay(mod, path, tier, seed):
+    with open(path) as f:
+        label = (json.load(f).get('witness') or {}).get('shard_environment')
+    if label and os.environ.get('VMON_SHARD_ENVIRONMENT') != label:
+        # the witness was found in an environment slice: replay it in an interpreter started the same way
+        opts = [label] if label in ('-bb', '-O') else []
+        e = dict(os.environ, VMON_SHARD_ENVIRONMENT=label, PYTHONPATH=env.VERIF_DIR, PYTHONHASHSEED='0')
+        if label.startswith('TZ='):
+            e['TZ'] = 'EST5EDT,M3.2.0,M11.1.0'
+        return subprocess.call([env.PYTHON, '-B'] + opts + ['-m', 'vmon.run', mod.ID, '--tier', tier, '--replay', path], env=e,
+                               cwd=env.VERIF_DIR)
+    if label and label.startswith('TZ='):
+        time.tzset()
     pid = os.fork()
     if pid == 0:
         try:
